@@ -2289,3 +2289,409 @@ def r74_truncation_gate(ctx):
 
 
 RULES["R74"] = r74_truncation_gate
+
+
+# ------------------------------------------------------------------- R75
+def r75_zero_interval_allowed(ctx):
+    """Only a *negative* interval is refused by the TimeRecurrence
+    constructor: a zero interval denotes the single point of its anchor
+    (the constructor collapses it to one repetition).  A refusal guarded by
+    a comparison of the interval with the zero Duration is strict."""
+    rep = ctx.rep
+    rule = "R75.zero-interval"
+    P = ("C12", "C14", "C13")
+    rep.need_anchor(rule, "TimeRecurrence.__init__")
+    from ..flow import path_conds
+    f = ctx.try_func("data.TimeRecurrence.__init__")
+    if f is None:
+        raise AnalysisError("TimeRecurrence.__init__ not found")
+    rep.anchor(rule, "TimeRecurrence.__init__")
+
+    def is_zero(e):
+        return isinstance(e, ast.Call) and U(e.func).endswith(
+            "Duration") and not e.args and all(
+                isinstance(k.value, ast.Constant) and k.value.value == 0
+                for k in e.keywords)
+    n_sites = 0
+    for r in walk_no_nested(f.node):
+        if not isinstance(r, ast.Raise):
+            continue
+        for t, pol in path_conds(r):
+            parts = t.values if isinstance(t, ast.BoolOp) and isinstance(
+                t.op, ast.And) and pol else [t]
+            for c in parts:
+                if not (isinstance(c, ast.Compare) and len(c.ops) == 1):
+                    continue
+                a, b, op = c.left, c.comparators[0], type(c.ops[0])
+                if is_zero(a) and not is_zero(b):
+                    a, b = b, a
+                    op = {ast.Lt: ast.Gt, ast.Gt: ast.Lt, ast.LtE: ast.GtE,
+                          ast.GtE: ast.LtE}.get(op, op)
+                if not is_zero(b) or "duration" not in U(a).lower():
+                    continue
+                if not pol:
+                    op = {ast.Lt: ast.GtE, ast.GtE: ast.Lt, ast.Gt: ast.LtE,
+                          ast.LtE: ast.Gt}.get(op, op)
+                n_sites += 1
+                rep.check(op is ast.Lt, rule, ctx.fkey(f, r, "strict"),
+                          f.loc(r),
+                          "the interval is refused only when it is below "
+                          "the zero duration",
+                          "TimeRecurrence.__init__ refuses the interval "
+                          "under `%s`: a zero interval (P0Y, PT0S - one "
+                          "point, the anchor) is refused along with the "
+                          "negative ones" % U(c), P)
+    if not n_sites:
+        rep.undecided(rule, ctx.fkey(f, None, "strict"), f.loc(),
+                      "no refusal guarded by a comparison of the interval "
+                      "with the zero Duration was found", P)
+
+
+RULES["R75"] = r75_zero_interval_allowed
+
+
+# ------------------------------------------------------------------- R76
+STRUCT_TIME = {"year": "tm_year", "month_of_year": "tm_mon",
+               "day_of_month": "tm_mday", "hour_of_day": "tm_hour",
+               "minute_of_hour": "tm_min", "second_of_minute": "tm_sec",
+               "day_of_year": "tm_yday"}
+
+
+def r76_configuration_reaches_tables(ctx):
+    """Two plumbing facts.  (a) The number of expanded year digits a parser
+    or dumper was configured with reaches the date translate table it
+    builds its regexes / templates from: every call of
+    get_date_translate_info in a class that has `num_expanded_year_digits`
+    passes it.  (b) A TimePoint built from a time.struct_time takes each
+    keyword from the field of the same meaning (day_of_month from tm_mday,
+    not tm_yday)."""
+    rep = ctx.rep
+    rule = "R76.plumbing"
+    rep.need_anchor(rule, "package functions")
+    n_f = n_a = n_b = 0
+    for f in ctx.model.all_functions():
+        n_f += 1
+        for n in walk_no_nested(f.node):
+            if not isinstance(n, ast.Call):
+                continue
+            fn = U(n.func).split(".")[-1]
+            if fn == "get_date_translate_info" and f.cls is not None and \
+                    f.self_name and f.module.name in ("parsers", "dumpers"):
+                n_a += 1
+                args = [U(a) for a in n.args] + [U(k.value)
+                                                 for k in n.keywords]
+                rep.check(
+                    any(a.endswith("num_expanded_year_digits")
+                        for a in args), rule,
+                    ctx.fkey(f, n, "digits"), f.loc(n),
+                    "the configured number of expanded year digits is "
+                    "handed to get_date_translate_info",
+                    "%s calls get_date_translate_info(%s) without its "
+                    "num_expanded_year_digits: the date forms are always "
+                    "built for the default of 2 extra digits, whatever the "
+                    "parser was configured with" % (f.qual, ", ".join(args)),
+                    ("C07", "C08", "C17"))
+            for k in n.keywords:
+                if k.arg in STRUCT_TIME and isinstance(
+                        k.value, ast.Attribute) and \
+                        k.value.attr.startswith("tm_"):
+                    n_b += 1
+                    rep.check(
+                        k.value.attr == STRUCT_TIME[k.arg], rule,
+                        ctx.fkey(f, n, "struct-time:" + k.arg), f.loc(n),
+                        "%s is taken from %s" % (k.arg, k.value.attr),
+                        "%s builds a time point with %s=%s: that keyword "
+                        "takes %s (the %s of a struct_time is another "
+                        "quantity)" % (f.qual, k.arg, U(k.value),
+                                       STRUCT_TIME[k.arg], k.value.attr),
+                        ("C19", "C17"))
+    rep.anchor(rule, "package functions", n_f)
+    rep.ok(rule, "package:plumbing-sites", "-",
+           "%d calls of get_date_translate_info from configured classes, %d "
+           "struct_time keywords looked at" % (n_a, n_b),
+           ("C07", "C19"), nontrivial=False)
+
+
+RULES["R76"] = r76_configuration_reaches_tables
+
+
+# ------------------------------------------------------------------- R77
+def r77_fraction_moves_down(ctx):
+    """Normal form of the time of day: a field is whole whenever a finer
+    field is set.  In _tick_over the fractional part of a field X is moved
+    into the next finer field Y (`X -= f; Y += f * radix`) exactly when both
+    are set: the guard of that block is `X is not None and Y is not None`
+    for the X and Y the block works on - tested on another field, the
+    fraction stays in X for some precision forms (7,5 hours and 10 minutes)
+    or is pushed into a field that is None."""
+    rep = ctx.rep
+    rule = "R77.fraction-guard"
+    P = ("C01", "C06", "C02", "C04", "C20")
+    rep.need_anchor(rule, "fraction blocks of _tick_over")
+    from ..flow import path_conds
+    from .round5 import _atoms_of
+    f = ctx.func("data.TimePoint._tick_over")
+    sn = f.self_name
+    n_blocks = 0
+    for blk in walk_no_nested(f.node):
+        if not isinstance(blk, ast.If):
+            continue
+        subs = [s for s in blk.body if isinstance(s, ast.AugAssign) and
+                isinstance(s.op, ast.Sub) and isinstance(
+                    s.target, ast.Attribute) and U(s.target.value) == sn]
+        adds = [s for s in blk.body if isinstance(s, ast.AugAssign) and
+                isinstance(s.op, ast.Add) and isinstance(
+                    s.target, ast.Attribute) and U(s.target.value) == sn]
+        rem = [s for s in blk.body if isinstance(s, ast.Assign) and any(
+            isinstance(x, ast.Call) and U(x.func) == "int"
+            for x in ast.walk(s.value))]
+        if len(subs) != 1 or len(adds) != 1 or not rem:
+            continue
+        n_blocks += 1
+        rep.anchor(rule, "fraction blocks of _tick_over")
+        X, Y = subs[0].target.attr, adds[0].target.attr
+        atoms = _atoms_of(path_conds(subs[0]))
+        want = {(X, True), (Y, True)}
+        if atoms is None:
+            rep.undecided(rule, ctx.fkey(f, blk, "guard:%s" % X), f.loc(blk),
+                          "the guard of the %s fraction block is not a "
+                          "conjunction this rule reads" % X, P)
+            continue
+        got = set()
+        for t, pol in atoms:
+            if not (isinstance(t, ast.Compare) and len(t.ops) == 1 and
+                    isinstance(t.ops[0], (ast.Is, ast.IsNot)) and
+                    isinstance(t.comparators[0], ast.Constant) and
+                    t.comparators[0].value is None and
+                    isinstance(t.left, ast.Attribute) and
+                    U(t.left.value) == sn):
+                continue
+            is_set = isinstance(t.ops[0], ast.IsNot) == pol
+            got.add((t.left.attr, is_set))
+        rep.check(got == want, rule, ctx.fkey(f, blk, "guard:%s" % X),
+                  f.loc(blk),
+                  "the fraction of %s moves into %s exactly when both are "
+                  "set" % (X, Y),
+                  "TimePoint._tick_over moves the fraction of %s into %s "
+                  "under `%s`; it must be exactly `%s is not None and %s is "
+                  "not None`: otherwise the fraction stays in %s although "
+                  "%s is set (or is added to a field that is None)" % (
+                      X, Y, U(blk.test)[:80], X, Y, X, Y), P)
+    if not n_blocks:
+        rep.anchor(rule, "fraction blocks of _tick_over")
+        rep.undecided(rule, ctx.fkey(f, None, "guards"), f.loc(),
+                      "_tick_over has no `X -= f; Y += f * radix` blocks "
+                      "this rule reads", P)
+    # every field is brought into range exactly when it is set: the
+    # statement that reduces field F (F = remainder of divmod(F, radix), a
+    # while loop on F, a call of _tick_over_F) is reached under
+    # `F is not None` and under no test of another field - a truthiness
+    # test skips the intermediate value 0 (day 0 = 31 December)
+    rule2 = "R77.subject-guard"
+    rep.need_anchor(rule2, "reductions of _tick_over")
+    from ..flow import block_of
+    slots = set(ctx.folder.need_class_const(ctx.model.cls("TimePoint"),
+                                            "__slots__"))
+    subjects = []       # (statement, field)
+    for st in walk_no_nested(f.node):
+        if isinstance(st, ast.Assign) and len(st.targets) == 1 and \
+                isinstance(st.targets[0], ast.Attribute) and \
+                U(st.targets[0].value) == sn:
+            fld = st.targets[0].attr
+            owner, _, lst = block_of(st)
+            for prev in (lst or [])[:(lst or []).index(st)]:
+                if isinstance(prev, ast.Assign) and isinstance(
+                        prev.value, ast.Call) and U(
+                            prev.value.func) == "divmod" and \
+                        prev.value.args and "%s.%s" % (sn, fld) in U(
+                            prev.value.args[0]) and any(
+                                isinstance(x, ast.Name) and x.id in {
+                                    y.id for y in ast.walk(st.value)
+                                    if isinstance(y, ast.Name)}
+                                for x in ast.walk(prev.targets[0])):
+                    subjects.append((st, fld))
+                    break
+        elif isinstance(st, ast.While) and isinstance(
+                st.test, ast.Compare) and isinstance(
+                    st.test.left, ast.Attribute) and U(
+                        st.test.left.value) == sn and any(
+                            isinstance(x, ast.AugAssign) and U(x.target) ==
+                            U(st.test.left) for x in ast.walk(st)):
+            subjects.append((st, st.test.left.attr))
+        elif isinstance(st, ast.Expr) and isinstance(
+                st.value, ast.Call) and isinstance(
+                    st.value.func, ast.Attribute) and U(
+                        st.value.func.value) == sn and \
+                st.value.func.attr.startswith("_tick_over_") and \
+                st.value.func.attr[len("_tick_over"):] in slots:
+            subjects.append((st, st.value.func.attr[len("_tick_over"):]))
+    for st, fld in subjects:
+        rep.anchor(rule2, "reductions of _tick_over")
+        atoms = _atoms_of(path_conds(st))
+        key = ctx.fkey(f, None, "reduces:%s" % fld)
+        if atoms is None:
+            rep.undecided(rule2, key, f.loc(st), "the conditions under "
+                          "which %s is reduced are not a conjunction" % fld,
+                          P)
+            continue
+        got = set()
+        for t, pol in atoms:
+            if isinstance(t, ast.Compare) and len(t.ops) == 1 and \
+                    isinstance(t.ops[0], (ast.Is, ast.IsNot)) and \
+                    U(t.comparators[0]) == "None" and isinstance(
+                        t.left, ast.Attribute) and U(t.left.value) == sn:
+                got.add((t.left.attr, "set" if isinstance(
+                    t.ops[0], ast.IsNot) == pol else "unset"))
+            elif isinstance(t, ast.Attribute) and U(t.value) == sn and \
+                    t.attr in slots:
+                got.add((t.attr, "non-zero" if pol else "zero-or-unset"))
+        rep.check(got == {(fld, "set")}, rule2, key, f.loc(st),
+                  "%s is brought into range exactly when it is set" % fld,
+                  "TimePoint._tick_over reduces %s (%s) under the field "
+                  "tests %s; it must be exactly `%s is not None`: tested on "
+                  "another field, or for truthiness, the reduction is "
+                  "skipped for values that need it (minute 75 of an "
+                  "hh:mm,m point; day 0 of an ordinal date, i.e. 31 "
+                  "December of the year before)" % (
+                      fld, U(st).split("\n")[0][:50],
+                      sorted(got) or "none", fld), P)
+    if not subjects:
+        rep.anchor(rule2, "reductions of _tick_over")
+        rep.undecided(rule2, ctx.fkey(f, None, "reductions"), f.loc(),
+                      "_tick_over reduces no field in a form this rule "
+                      "reads", P)
+
+
+RULES["R77"] = r77_fraction_moves_down
+
+
+# ------------------------------------------------------------------- R78
+def r78_zone_difference_known(ctx):
+    """An unknown time zone (that of a truncated point written without one)
+    has no offset: its hours and minutes are zero only as a placeholder.
+    Wherever TimePoint takes the difference of two zones to shift fields,
+    the zone the fields are shifted *to* (the minuend) has been tested for
+    `_unknown` and the shift is skipped for it - otherwise a zone-less
+    truncated point is treated as UTC, and adding it to a point at +05:30
+    matches its fields in UTC instead of in that point's own zone."""
+    rep = ctx.rep
+    rule = "R78.zone-difference-known"
+    P = ("C20",)
+    rep.need_anchor(rule, "zone differences")
+    from ..flow import path_conds
+    tp = ctx.model.cls("TimePoint")
+
+    def is_zone(e, f):
+        if isinstance(e, ast.Attribute) and e.attr in (
+                "_time_zone", "time_zone"):
+            return True
+        if isinstance(e, ast.Name):
+            for a in f.node.args.args + f.node.args.kwonlyargs:
+                if a.arg == e.id and a.annotation is not None and \
+                        "TimeZone" in U(a.annotation):
+                    return True
+        return False
+    n_sites = 0
+    for name, f in sorted(tp.methods.items()):
+        for n in walk_no_nested(f.node):
+            if not (isinstance(n, ast.BinOp) and isinstance(n.op, ast.Sub)
+                    and is_zone(n.left, f) and is_zone(n.right, f)):
+                continue
+            n_sites += 1
+            rep.anchor(rule, "zone differences")
+            atoms = _atoms_of(path_conds(n))
+            key = ctx.fkey(f, n, "known:%s" % U(n.left))
+            if atoms is None:
+                rep.undecided(rule, key, f.loc(n), "the conditions under "
+                              "which `%s` is evaluated are not a "
+                              "conjunction" % U(n), P)
+                continue
+            known = {U(t) for t, pol in atoms if not pol}
+            want = {U(n.left) + "._unknown", U(n.left) + ".unknown"}
+            rep.check(bool(known & want), rule, key, f.loc(n),
+                      "`%s` is evaluated only when %s is a known zone" % (
+                          U(n), U(n.left)),
+                      "TimePoint.%s evaluates `%s` without having excluded "
+                      "that %s is the unknown zone of a truncated point: "
+                      "the unknown zone counts as +00:00 and the fields are "
+                      "shifted to UTC (2024-059T20:00+05:30 + T06 gives "
+                      "11:30+05:30 instead of 06:00+05:30)" % (
+                          name, U(n), U(n.left)), P)
+    if not n_sites:
+        rep.anchor(rule, "zone differences")
+        rep.undecided(rule, "data.py:TimePoint:zone-differences", "data.py",
+                      "TimePoint takes no difference of two zones in the "
+                      "form this rule reads", P)
+
+
+RULES["R78"] = r78_zone_difference_known
+
+
+# ------------------------------------------------------------------- R79
+def r79_month_day_ranges(ctx):
+    """iter_months_days enumerates the days of a year, month by month; the
+    carries that add or subtract whole days walk that list.  Every day range
+    it builds for a month of `days` days runs from day 1 (or the start day)
+    through day `days`: forwards range(lo, days + 1), backwards
+    range(hi, 0, -1).  One short at either end drops the 1st or the last of
+    every month walked, and each such month puts the walk off by a day."""
+    rep = ctx.rep
+    rule = "R79.month-day-ranges"
+    P = ("C01", "C02", "C04", "C05", "C12", "C15", "C20", "C03")
+    rep.need_anchor(rule, "day ranges of _iter_months_days")
+    from ..linear import lin
+    f = ctx.try_func("data._iter_months_days")
+    if f is None:
+        rep.anchor(rule, "day ranges of _iter_months_days")
+        rep.undecided(rule, "data.py:_iter_months_days:ranges", "data.py",
+                      "data._iter_months_days not found", P)
+        return
+    start_day = f.params[2] if len(f.params) > 2 else "day_of_month"
+    n_ranges = 0
+    for lp in walk_no_nested(f.node):
+        if not (isinstance(lp, ast.For) and isinstance(lp.target, ast.Tuple)
+                and len(lp.target.elts) == 2 and
+                isinstance(lp.target.elts[1], ast.Name)):
+            continue
+        days = lp.target.elts[1].id
+        for c in ast.walk(lp):
+            if not (isinstance(c, ast.Call) and U(c.func) == "range" and
+                    1 <= len(c.args) <= 3):
+                continue
+            n_ranges += 1
+            rep.anchor(rule, "day ranges of _iter_months_days")
+            args = list(c.args)
+            step = lin(args[2], {}).const() if len(args) == 3 else 1
+            lo = args[0] if len(args) > 1 else ast.Constant(0)
+            hi = args[1] if len(args) > 1 else args[0]
+            key = ctx.fkey(f, c, "range")
+            if step == 1:
+                first_ok = lin(lo, {}).const() == 1 or U(lo) == start_day
+                d = lin(hi, {}).add(lin(ast.Name(days, ast.Load()), {}), -1)
+                last_ok = d.const() == 1
+                want = "range(1 or %s, %s + 1)" % (start_day, days)
+            elif step == -1:
+                first_ok = U(lo) in (days, start_day)
+                last_ok = lin(hi, {}).const() == 0
+                want = "range(%s or %s, 0, -1)" % (days, start_day)
+            else:
+                first_ok = last_ok = False
+                want = "a step of 1 or -1"
+            rep.check(first_ok and last_ok, rule, key, f.loc(c),
+                      "`%s` runs from the first (or start) day through the "
+                      "last day of the month" % U(c),
+                      "_iter_months_days builds the days of a month as `%s` "
+                      "(expected %s): the %s of each such month is left "
+                      "out, so every walk over whole days that crosses it "
+                      "(2021-03-15 - P42D) lands a day off" % (
+                          U(c), want, "first or start day" if not (
+                              first_ok if step == 1 else last_ok)
+                          else "last day"), P)
+    if not n_ranges:
+        rep.anchor(rule, "day ranges of _iter_months_days")
+        rep.undecided(rule, ctx.fkey(f, None, "ranges"), f.loc(),
+                      "_iter_months_days builds no range() over a month's "
+                      "days in a loop over (month, days) pairs", P)
+
+
+RULES["R79"] = r79_month_day_ranges
